@@ -123,36 +123,28 @@ class EIG(BaseRoutine):
         Returns `fx`, `fy`, `gx`, `gy`, `Tf`.
         """
         dae = self.system.dae
-        rows = np.arange(dae.n, dtype=int)
-        cols = np.arange(dae.n, dtype=int)
-        vals = np.ones(dae.n, dtype=float)
+        n = dae.n
 
-        swaps = []
-        bidx = self.nz_counts
-        for ii in range(dae.n - self.nz_counts):
-            if ii in self.zstate_idx:
-                while (bidx in self.zstate_idx):
-                    bidx += 1
-                cols[ii] = bidx
-                rows[bidx] = ii
-                swaps.append((ii, bidx))
+        # new order of states: the ones with non-zero time constants come first
+        nzstate_idx = np.setdiff1d(np.arange(n, dtype=int), self.zstate_idx)
+        order = np.concatenate((nzstate_idx, self.zstate_idx)).astype(int)
 
-        # swap the variable names
-        for fr, bk in swaps:
-            bk_name = self.x_name[bk]
-            self.x_name[fr] = bk_name
-        self.x_name = self.x_name[:self.nz_counts]
+        # keep the names of the remaining states
+        self.x_name = self.x_name[nzstate_idx]
 
-        # compute the permutation matrix for `As` containing non-states
-        perm = spmatrix(matrix(vals), matrix(rows), matrix(cols))
-        As_perm = perm * sparse(self.As) * perm
+        # permutation matrix: row `k` of the permuted matrix is row `order[k]` of `As`
+        perm = spmatrix(1.0, list(range(n)), order.tolist(), (n, n), 'd')
+
+        As_perm = perm * sparse(self.As) * perm.T
         self.As_perm = As_perm
 
         nfx = As_perm[:self.nz_counts, :self.nz_counts]
         nfy = As_perm[:self.nz_counts, self.nz_counts:]
         ngx = As_perm[self.nz_counts:, :self.nz_counts]
         ngy = As_perm[self.nz_counts:, self.nz_counts:]
-        nTf = np.delete(self.system.dae.Tf, self.zstate_idx)
+
+        # rows of `self.As` have already been divided by the non-zero time constants
+        nTf = np.ones(self.nz_counts)
 
         return nfx, nfy, ngx, ngy, nTf
 
